@@ -37,7 +37,14 @@ Monitors (judged on the implementation alone, pypyr's own formatter as oracle fo
   context held there; no node of what was read is formatted), every other key unchanged, the step does not raise;
   whole-context write == formatted context (keys included) == explicit payload of the same mapping, in all three formats;
   fetched value == formatted payload (typed equality, dict order ignored);
-  parse(fileformat output) == formatter applied to parse(source).
+  parse(fileformat output) == formatter applied to parse(source);
+  fileformat, read node by node from the property text (`fileformat_spec_monitors`, primitive: the formatter on ONE string):
+  the step must not raise when every string node formats and the formatted document is representable in the format
+  (keys that are single expressions resolving to int / bool / None / float next to string keys, any depth); the mapping
+  entries of the output are in the ORDER of the source entries (json, yaml entirely; toml within plain entries / within
+  tables) - also compared with the model document, ordered; a step that raised leaves the source byte for byte intact and no
+  other file behind; the `out` file after a failure (absent / empty / partial) is an observation held against the code's
+  order of events (opened before formatting and dumping).
 """
 from __future__ import annotations
 
@@ -255,6 +262,24 @@ def json_directed_payloads():
     out.append(({'m': {False: 'py False', 'false': 'str', 'False': 'other', None: 1, 'null': 2, 'None': 3}}, True))
     out.append(({7: 'top-level int key', 'k': 'v{k1}'}, True))
     out.append(([{1: [{2: [{3: 'deep {k1}'}]}]}], True))
+    return out
+
+
+def keyexpr_docs(fmt):
+    """Source documents whose keys include single expressions that resolve to non-strings ({k2} -> 42, {kb} -> False,
+    {kn} -> None, {kf} -> 1.5) next to ordinary string keys - first, last and in the middle of UNSORTED entries, at the
+    top level, at depth 1-3 and inside a list."""
+    out = []
+    exprs = [e for e in JSON_KEY_EXPR if not (fmt == 'toml' and e == '{kn}')]
+    for e in exprs:
+        out.append({e: 'v', 'plain': 'x{k1}'})
+        out.append({'plain': 1, e: [1, 'two {k1}']})
+        out.append({'z': 1, e: 2, 'a': 3, 'm': {'z': 'x{k1}', 'a': 2}})
+        out.append({'top': 'hello {k1}', 'lvl1': {'lvl2': {'lvl3': {'name': 'n {k1}', e: 'deep', 'list': ['{k2}', 'x{k2}', 1.5, True]}}}})
+        out.append({'l': [{'s': 1, e: 2}, {'b': 'x', 'a': 'y'}], 'after': '{k1}'})
+    out.append({'{k2}': 1, 'b': 2, '{kb}': 3, 'a': 4, '{kf}': 5})
+    out.append({'zeta': 1, 'alpha': {'zz': 1, 'aa': 2, 'mm': [{'z': 1, 'a': 2}]}, 'mid': 'x{k1}', 'beta': 2})      # order only
+    out.append({'k{k1}': 'z', 'b': 1, 'a': 2, 'kv1': 'same key after formatting: first position, last value'})
     return out
 
 
@@ -844,7 +869,81 @@ def run_fileformat(drv, case):
         if 'ok' in want:
             w = I.sort_wire(want['ok'])
             rec['monitor'] = {'holds': impl.get('ok') == w, 'want': w, 'got': impl.get('ok', impl)}
+    # the model document in the entry order of the source AS LOADED (a TOML writer puts plain entries before tables: the
+    # rendered source may already have another order than the generated document)
+    m_ord = m
+    if 'ok' in m and enc(src_loaded) != case['doc']:
+        rec['counts'].append('source-order-differs-from-generated:' + fmt)
+        try:
+            m_ord = drv.ask('codec.fileformat', format=fmt, ctx=enc(ctx), doc=enc(src_loaded), **req)
+        except common.Reject:
+            m_ord = {}
+    fileformat_spec_monitors(rec, case, fmt, ctx, src_loaded, o, out_text, m, m_ord)
     return rec
+
+
+def fileformat_spec_monitors(rec, case, fmt, ctx, src_loaded, o, out_text, m, m_ord=None):
+    """Monitors read from the property text node by node (`I.spec_format`: pypyr's formatter applied to single strings
+    is the only primitive), for every format: (a) the step RAISED although every string node formats and the plain
+    writer of the format accepts the formatted document (keys that format to int / bool / None / float next to string
+    keys included: json writes them coerced, yaml as they are; toml has string keys only - there the failure is due);
+    (b) the ORDER of the mapping entries of the output document is the order of the source entries (formatting a key
+    does not move its entry; json and yaml preserve it entirely, toml within plain entries / within tables);
+    (c) whatever made a step fail, the source file is byte for byte what it was and nothing but source and `out` is left
+    in the directory; the state of `out` after a failure (absent / empty / partial) is an observation compared with the
+    code's order of events (the out file is opened for writing before the document is formatted and dumped: a failure
+    of either leaves it truncated)."""
+    vs = rec.setdefault('violations', [])
+    spec = I.spec_format(ctx, src_loaded)
+    sig = {'flow': 'fileformat', 'format': fmt}
+    route = case.get('route') or ('inplace' if case['inplace'] else 'out')
+    if 'err' in o:
+        after = o.get('after') or {}
+        rec['counts'].append('fileformat-failed:' + fmt + ':out=' + str(after.get('out')))
+        if 'ok' in spec and I.representable(fmt, spec['ok']):
+            nonstr = I.has_nonstr_key(spec['ok'])
+            vs.append({'detail': f"fileformat {fmt} ({route}) raised {o['err']}: {o.get('msg')} although every string node of the "
+                                 f"source formats and the formatted document is {fmt}-representable"
+                                 + (' (a key formats to a non-string next to other keys)' if nonstr else '')
+                                 + f"; wanted {json.dumps(enc(spec['ok']))[:200]}; files afterwards: {after}",
+                       'signature': dict(sig, cause='raised-on-formattable-document' + (':non-string-formatted-key' if nonstr else '')),
+                       'impl': o})
+        if after and not after.get('source_intact'):
+            vs.append({'detail': f"fileformat {fmt} ({route}) raised {o['err']} and the source file is no longer what it was",
+                       'signature': dict(sig, cause='failed-step-changed-the-source'), 'impl': o})
+        if after.get('extra'):
+            vs.append({'detail': f"fileformat {fmt} ({route}) raised {o['err']} and left other files behind: {after['extra']}",
+                       'signature': dict(sig, cause='failed-step-left-files-behind'), 'impl': o})
+        if route == 'out' and after and 'err' in m:
+            # model of the order of events: open(out, 'w') precedes formatter + dump -> truncated, never the old content
+            if after.get('out') == 'absent':
+                rec['mismatch'] = (rec.get('mismatch', '') + '; a failing format/dump leaves NO out file (the code opens it first)').strip('; ')
+        return
+    if out_text is None or 'ok' not in spec:
+        return
+    try:
+        got = I.plain(I.load(fmt, out_text))
+    except Exception:
+        return
+    want_doc = I.json_coerce_keys(spec['ok']) if fmt == 'json' else spec['ok']
+    want_w, got_w = enc(want_doc), enc(got)
+    if I.sort_wire(want_w) != I.sort_wire(got_w):
+        if rec.get('monitor') is None or rec['monitor']['holds']:
+            # the whole-document formatter agrees with the output, the node-by-node reading does not
+            what, a, b = first_diff(I.sort_wire(want_w), I.sort_wire(got_w))
+            vs.append({'detail': f'fileformat {fmt}: output differs from the source formatted node by node at a {what} node: '
+                                 f'wanted {json.dumps(a)[:160]}, got {json.dumps(b)[:160]}',
+                       'signature': dict(sig, cause='node-by-node:' + cause_of(what, a)), 'impl': {'want': want_w, 'got': got_w}})
+        return
+    rec['counts'].append('order-compared:' + fmt)
+    if not I.same_order(fmt, want_w, got_w):
+        vs.append({'detail': f'fileformat {fmt} ({route}): the output document has the formatted entries in another ORDER than '
+                             f'the source: wanted {json.dumps(want_w)[:200]}, got {json.dumps(got_w)[:200]}',
+                   'signature': dict(sig, cause='entry-order-changed'), 'impl': {'want': want_w, 'got': got_w}})
+    # the model carries the order too (fmtDoc keeps entry order; json: coerceKeys keeps it): model vs output, ordered
+    m_ord = m if m_ord is None else m_ord
+    if 'ok' in m_ord and not I.same_order(fmt, m_ord['ok'], got_w) and I.sort_wire(m_ord['ok']) == I.sort_wire(got_w):
+        rec['mismatch'] = (rec.get('mismatch', '') + '; entry ORDER of the output differs from the model document').strip('; ')
 
 
 def run_jsonprint(drv, case):
@@ -2159,6 +2258,19 @@ def build_cases(env):
                 cases.append(writefetch_case(fmt, p, 'key'))
                 cases.append(parser_case(fmt, p))
                 cases.append(fileformat_case(fmt, p, inplace=True))
+    # ---- keys that are single expressions resolving to non-strings (int / bool / None / float) NEXT TO string keys, at
+    #      depth 0-3 and inside lists, unsorted entry orders; 3 formats x fileformat (in place / out) x filewrite->fetch
+    for fmt in ('json', 'yaml', 'toml'):
+        for i, d in enumerate(keyexpr_docs(fmt)):
+            for j, cfg in enumerate([None] if fmt != 'json' else [None, (0, True), ('none', False)]):
+                cases.append(fileformat_case(fmt, d, inplace=True, jcfg=cfg))
+                cases.append(fileformat_case(fmt, d, inplace=False, jcfg=cfg))
+                cases.append(writefetch_case(fmt, {'doc': d}, 'key', None, cfg))
+                cases.append(writefetch_case(fmt, {'doc': d}, 'root', None, cfg))
+        # a failing fileformat (a node that cannot be formatted; toml: a node / key TOML has no type for), both routes
+        for d in ({'a': 'fine {k1}', 'b': '{nope}', 'c': 1}, {'z': {'y': ['x{k1}', {'w': '{nope}'}]}}, {'{nope}': 1, 'a': 2}):
+            for inplace in (True, False):
+                cases.append(fileformat_case(fmt, d, inplace=inplace))
     # ---- steps on one context: fetch to the context root (twice, over containers, files with literal braces)
     cases += directed_ctxsessions()
     # ---- the write steps without payload: whole context, top-level key names with expressions
@@ -2251,6 +2363,10 @@ def run(env, res):
                 'top-level key names carry expressions ({env}_url, {service}-{region}, k{k1}, {{literal}}, colliding after '
                 'formatting), read back by the fetch step and the file parser == the formatted context (own input entry '
                 'included), == the same mapping given as explicit payload, and the same document from the three write steps. '
+                'Key-expression family: keys {k2}/{kb}/{kn}/{kf} (resolve to 42 / False / None / 1.5) next to string keys - first, '
+                'last, in the middle of unsorted entries, at depth 0-3 and inside a list - x 3 formats x fileformat in place / out '
+                '(json: x 3 indent/ascii settings) x filewrite->fetch at a key / nested at root; documents that cannot be formatted '
+                '({nope} as value, nested, as key) x 3 formats x both routes: files after the failure observed. '
                 'Long keys (81..127 / 80 / 128+ characters, with and without blanks) x 3 formats x write->fetch / parser / '
                 'fileformat, directed only. non-trivial = every case (distinct canonical input)')
     cases, n_directed = build_cases(env)
